@@ -1,7 +1,7 @@
 // Package c17 is the explicit-state explorer of property C17: OLVM transactions keep one ledger and
 // charge exactly the gas used.
 //
-// A history is a list of event indexes; one event = one block with 1..2 operations (or none). After
+// A history is a list of event indexes; one event = one block with 1..3 operations (or none). After
 // EVERY transaction (read from the deliver state between two DeliverTx calls) and after every block
 // (read from the committed state) the oracle compares the native and the EVM view of every tracked
 // account and checks the transaction's effect against a reference ledger.
@@ -58,6 +58,7 @@ var (
 	sendAB     = op{Kind: "native-send", From: "A", To: "B"}
 	sendAEA    = op{Kind: "native-send", From: "A", To: "EA"}
 	sendAStore = op{Kind: "native-send", From: "A", To: "STORE"}
+	sendAEC    = op{Kind: "native-send", From: "A", To: "EC"}
 	xferEB     = op{Kind: "transfer", From: "EA", To: "EB"}
 	xferA      = op{Kind: "transfer", From: "EA", To: "A"}
 	xferF      = op{Kind: "transfer", From: "EA", To: "F"}
@@ -108,4 +109,19 @@ func pairs() []event {
 	}
 }
 
-func events() []event { return append(singles(), pairs()...) }
+// triples: an OLVM transaction that is validated but not executed (it fails its pre-checks after the
+// sender's account was read), then a NATIVE change of that same account, then an OLVM transaction of that
+// account - all in one block, so that nothing (no EndBlock, no Commit) refreshes whatever the first
+// transaction may have left behind in memory. (Added after a seeded change - pre-checks reading through
+// the shared EVM adapter - escaped the pairs.)
+func triples() []event {
+	t := func(a, b, c op) event { return event{Ops: []op{a, b, c}} }
+	return []event{
+		t(poorBelow, sendAEC, poorExact), // rejected for funds, natively funded, then affordable
+		t(xferLow, sendAEA, xferEB),      // rejected for its nonce, native credit, then a transfer
+		t(wrongChain, sendAEA, xferEB),   // rejected for its chain id, native credit, then a transfer
+		t(xferEB, sendAEA, xferA),        // executed, native credit, executed again
+	}
+}
+
+func events() []event { return append(append(singles(), pairs()...), triples()...) }
